@@ -111,6 +111,48 @@ def _case(args):
     return ev, {"lam": lam, "U": ul[(seed + 3) % len(ul)][0], "seed": seed, "tol": tol}
 
 
+def _structured_matrices():
+    """Hermitian matrices with EXACTLY representable entries and exact coordinate symmetry (a I + b P with P a Hermitian
+    involution built from quaternion units; constant off-diagonal), spectrum known in closed form.  Rounding never breaks
+    their symmetry, so a start vector inside an invariant subspace stays there: "from every random start" is about the
+    distribution of the start as well."""
+    out = []
+    units_ = {"1": [1.0, 0, 0, 0], "-1": [-1.0, 0, 0, 0], "i": [0, 1.0, 0, 0], "j": [0, 0, 1.0, 0], "k": [0, 0, 0, 1.0]}
+    for a, b in ((2.0, -1.0), (2.0, 1.0), (-2.0, 1.0), (0.5, 2.0), (-1.0, 3.0)):
+        for un, q in units_.items():
+            A = np.zeros((2, 2, 4))
+            A[0, 0, 0] = A[1, 1, 0] = a
+            A[0, 1] = [b * x for x in q]
+            A[1, 0] = [b * q[0]] + [-b * x for x in q[1:]]
+            out.append(("2x2 %g*I%+g*[[0,%s],[conj,0]]" % (a, b, un), A, sorted([a + b, a - b], key=lambda x: -abs(x))))
+    for a, b in ((2.0, 1.0), (-2.0, -1.0), (0.0, 1.0), (3.0, 1.0)):
+        A = np.zeros((3, 3, 4))
+        A[..., 0] = b
+        A[0, 0, 0] = A[1, 1, 0] = A[2, 2, 0] = a
+        out.append(("3x3 diag %g, off-diagonal %g" % (a, b), A, sorted([a + 2 * b, a - b, a - b], key=lambda x: -abs(x))))
+    return out
+
+
+def _structured(args):
+    tid, mi, seed, tol = args
+    name, A, lam = _structured_matrices()[mi]
+    n = A.shape[0]
+    l1, rho = lam[0], abs(lam[1]) / abs(lam[0])
+    ev = [{"tid": tid, "ev": "Start", "lam": [int(round(x * 10)) for x in lam], "scale_lg": 0, "tol_lg": lg(tol), "gap_lg": lg(rho) if rho > 0 else -100000,
+           "sign": "pos" if l1 > 0 else "neg", "n": n, "seed": seed}]
+    v, e = _pit(A, 4000, tol, seed)
+    vf = q_to_float(np.asarray(v)).reshape(n, 1, 4)
+    fin = bool(np.all(np.isfinite(vf)) and math.isfinite(float(e)))
+    resid = ofro(omul(A, vf) - vf * l1) if fin else float("inf")
+    bound = tol / max(1.0 - rho, 1e-3) if l1 > 0 else math.sqrt(tol * 1e-3) / max(1.0 - rho * rho, 1e-3)
+    nrm2 = abs(l1)
+    ev.append({"tid": tid, "ev": "Return", "finite": fin, "unit_units": units(abs(ofro(vf) - 1.0), 1.0, 4 * n) if fin else 2 ** 30,
+               "ev_excess_units": units(max(0.0, float(e) - nrm2), max(nrm2, 1e-300), 4 * n) if fin else 2 ** 30,
+               "hermitian_gap": True, "everr_lg": lg(abs(float(e) - abs(l1)) / nrm2) if fin else 100000,
+               "resid_lg": lg(resid / nrm2), "bound_lg": lg(bound), "stopped_at": -1})
+    return ev, {"lam": lam, "matrix": name, "A": A.tolist(), "seed": seed, "tol": tol}
+
+
 def _misc(args):
     tid0, seed, count = args
     rng = np.random.default_rng(seed)
@@ -210,6 +252,11 @@ def run(ctx, replay=None):
     for ev, info in outs:
         events += ev
         meta[ev[0]["tid"]] = info
+    sjobs = [(200000 + 100 * mi + sd, mi, ctx.seed * 1000 + sd, 1e-10) for mi in range(len(_structured_matrices())) for sd in range(48 if thorough else 24)]
+    for ev, info in par.pmap(_structured, sjobs):
+        events += ev
+        meta[ev[0]["tid"]] = info
+    ctx.notes["structured_exact_matrices"] = {"matrices": len(_structured_matrices()), "start_seeds_each": 48 if thorough else 24}
     for ev, m in par.pmap(_misc, [(100000 + 1000 * i, ctx.seed * 31 + i, 12) for i in range(16 if thorough else 4)], chunk=1):
         events += ev
         meta.update(m)
